@@ -9,21 +9,79 @@ Theorem reader_standard : forall lead items es,
 Proof. exact reader_standard_proof. Qed.
 Print Assumptions reader_standard.
 
-(* the hypotheses are satisfiable on a nested list holding a string literal
-   with a parenthesis in it, directly followed by a comment *)
+(* the hypotheses are satisfiable on a nested list holding an atom directly
+   followed by a string literal (with a parenthesis in it), which is directly
+   followed by a comment that ends with CR; an atom directly followed by a
+   quoted symbol and one directly followed by a comment *)
 Example reader_standard_ex :
   let lead := [cSP; cLF] in
-  let items := [(LPar, []); (Tok [97%N; 34%N], [cSP; cTAB]);
+  let items := [(LPar, []); (Tok [97%N; 35%N], []);
                 (Tok [cDQ; cLP; cDQ; cDQ; cDQ], []);
-                (Tok [cSEMI; 120%N; cRP; cLF], []);
-                (LPar, []); (RPar, []); (Tok [cBAR; cSP; cDQ; cBAR], []);
+                (Tok [cSEMI; 120%N; cRP; cCR], []);
+                (LPar, []); (RPar, []); (Tok [99%N], []); (Tok [cBAR; cSP; cDQ; cBAR], []);
+                (Tok [100%N], []); (Tok [cSEMI; cLF], [cTAB]);
                 (RPar, [cLF]); (Tok [98%N], [])] in
-  let es := [T [L [97%N; 34%N]; L [cDQ; cLP; cDQ; cDQ; cDQ];
-                L [cSEMI; 120%N; cRP; cLF]; T []; L [cBAR; cSP; cDQ; cBAR]];
+  let es := [T [L [97%N; 35%N]; L [cDQ; cLP; cDQ; cDQ; cDQ];
+                L [cSEMI; 120%N; cRP; cCR]; T []; L [99%N]; L [cBAR; cSP; cDQ; cBAR];
+                L [100%N]; L [cSEMI; cLF]];
              L [98%N]] in
   ws_ok lead = true /\ seps_ok items = true /\
   structure (map fst items) = Some es /\ parse (render lead items) = es.
 Proof. vm_compute. repeat split; reflexivity. Qed.
+
+(* ---- the scanner after fix F41, on texts: an atom ends before a double quote
+   or a bar, a comment ends at the first line-breaking character (LF or CR) ---- *)
+
+(*  x"a"  is the atom x followed by the string literal "a"  *)
+Example parse_atom_strlit_ex :
+  parse [120%N; cDQ; 97%N; cDQ] = [L [120%N]; L [cDQ; 97%N; cDQ]].
+Proof. vm_compute. reflexivity. Qed.
+
+(*  (f a|b c| d)  : the atom a, then the quoted symbol |b c|  *)
+Example parse_atom_qsym_ex :
+  parse [cLP; 102%N; cSP; 97%N; cBAR; 98%N; cSP; 99%N; cBAR; cSP; 100%N; cRP] =
+  [T [L [102%N]; L [97%N]; L [cBAR; 98%N; cSP; 99%N; cBAR]; L [100%N]]].
+Proof. vm_compute. reflexivity. Qed.
+
+(*  (f #b01"s")  : the binary literal #b01, then the string literal "s"  *)
+Example parse_bin_strlit_ex :
+  parse [cLP; 102%N; cSP; 35%N; 98%N; 48%N; 49%N; cDQ; 115%N; cDQ; cRP] =
+  [T [L [102%N]; L [35%N; 98%N; 48%N; 49%N]; L [cDQ; 115%N; cDQ]]].
+Proof. vm_compute. reflexivity. Qed.
+
+(*  ; c<CR>(a)<LF>  : the comment ends at the CR, the list after it is read  *)
+Example parse_comment_cr_ex :
+  parse [cSEMI; cSP; 99%N; cCR; cLP; 97%N; cRP; cLF] =
+  [L [cSEMI; cSP; 99%N; cCR]; T [L [97%N]]].
+Proof. vm_compute. reflexivity. Qed.
+
+(*  (a ; c<CR> b)  : b is not swallowed by the comment  *)
+Example parse_comment_cr_inner_ex :
+  parse [cLP; 97%N; cSP; cSEMI; cSP; 99%N; cCR; cSP; 98%N; cRP] =
+  [T [L [97%N]; L [cSEMI; cSP; 99%N; cCR]; L [98%N]]].
+Proof. vm_compute. reflexivity. Qed.
+
+(* these five texts are legal renderings, so the results above are the ones
+   [reader_standard] prescribes *)
+Example parse_new_texts_std_ex :
+  seps_ok [(Tok [120%N], []); (Tok [cDQ; 97%N; cDQ], [])] = true /\
+  seps_ok [(LPar, []); (Tok [102%N], [cSP]); (Tok [97%N], []);
+           (Tok [cBAR; 98%N; cSP; 99%N; cBAR], [cSP]); (Tok [100%N], []); (RPar, [])] = true /\
+  seps_ok [(LPar, []); (Tok [102%N], [cSP]); (Tok [35%N; 98%N; 48%N; 49%N], []);
+           (Tok [cDQ; 115%N; cDQ], []); (RPar, [])] = true /\
+  seps_ok [(Tok [cSEMI; cSP; 99%N; cCR], []); (LPar, []); (Tok [97%N], []); (RPar, [cLF])] = true /\
+  seps_ok [(LPar, []); (Tok [97%N], [cSP]); (Tok [cSEMI; cSP; 99%N; cCR], [cSP]);
+           (Tok [98%N], []); (RPar, [])] = true /\
+  render [] [(Tok [120%N], []); (Tok [cDQ; 97%N; cDQ], [])] = [120%N; cDQ; 97%N; cDQ] /\
+  render [] [(Tok [cSEMI; cSP; 99%N; cCR], []); (LPar, []); (Tok [97%N], []); (RPar, [cLF])] =
+    [cSEMI; cSP; 99%N; cCR; cLP; 97%N; cRP; cLF].
+Proof. vm_compute. repeat split; reflexivity. Qed.
+
+(* a quote or a bar inside an atom is not a lexeme of the standard, and not a leaf:
+   the text  a, double quote, b  is the atom a and an unterminated literal (which the scanner drops) *)
+Example parse_no_liberal_ex :
+  leaf_ok [97%N; cDQ; 98%N] = false /\ parse [97%N; cDQ; 98%N] = [L [97%N]].
+Proof. vm_compute. split; reflexivity. Qed.
 
 Theorem literal_opaque : forall l1 items1 l2 items2,
   ws_ok l1 = true -> ws_ok l2 = true ->
